@@ -494,7 +494,8 @@ def standin_clifford_state_maps(tier, seed):
     # simulator, and cirq.sample (which picks the simulator by that claim) works on a qutrit circuit with a reset
     t3 = cirq.LineQid(0, dimension=3)
     shift3 = cirq.MatrixGate(np.roll(np.eye(3), 1, axis=0), qid_shape=(3,))
-    for circ, want in ((cirq.Circuit(shift3(t3), cirq.ResetChannel(3)(t3), cirq.measure(t3, key="m")), 0), (cirq.Circuit(cirq.ResetChannel(3)(t3), shift3(t3), shift3(t3), cirq.measure(t3, key="m")), 2)):
+    for circ, want in ((cirq.Circuit(cirq.ResetChannel(3)(t3), cirq.measure(t3, key="m")), 0), (cirq.Circuit(shift3(t3), cirq.ResetChannel(3)(t3), cirq.measure(t3, key="m")), 0),
+                       (cirq.Circuit(cirq.ResetChannel(3)(t3), shift3(t3), shift3(t3), cirq.measure(t3, key="m")), 2)):
         cases += 1
         try:
             got = int(cirq.sample(circ).measurements["m"][0][0])
